@@ -844,6 +844,10 @@ dt_strfdt(char *restrict buf, size_t bsz, const char *fmt, struct dt_dt_s that)
 		strf_xian:
 			/* short cut, just print the guy here */
 			bp = buf + __strfdt_xdn(buf, bsz, that);
+			if (UNLIKELY(bp > buf + bsz)) {
+				/* snprintf() reports what it would have written */
+				bp = buf + bsz;
+			}
 			goto out;
 		case DT_BIZDA:
 			fmt = bizdahms_dflt;
@@ -1004,7 +1008,7 @@ dt_strfdt(char *restrict buf, size_t bsz, const char *fmt, struct dt_dt_s that)
 				 * would have written */
 				bp = eo;
 			}
-			if (spec.ord) {
+			if (spec.ord && bp >= buf + 2) {
 				bp += __ordtostr(bp, eo - bp);
 			} else if (spec.bizda && bp < eo) {
 				/* don't print the b after an ordinal */
